@@ -36,7 +36,7 @@ CONSTANTS Environ,      \* process environment: [name (character sequence) |-> v
 (* schema descriptors *)
 SchemaF(fields) ==
     [kind |-> "schema", fields |-> fields, dynamic |-> FALSE, ctype |-> FALSE,
-     flagkey |-> "", validators |-> <<>>, senv |-> "inherit", fname |-> ""]
+     flagkey |-> "", validators |-> <<>>, senv |-> EnvInherit, fname |-> ""]
 \* list item that is a schema / config type:  ListF(SchemaF(...))
 VirtualF == [kind |-> "virtual"]        \* VirtualField / InstanceMethodField: no stored value
 
@@ -61,29 +61,33 @@ Res(ok, cfg, err, repl) == ResL(ok, cfg, err, repl, {})
 ---------------------------------------------------------------------------
 (* environment binding (core.py Field.__setkey__ / Schema.__setkey__):
    Bind(S, prefix) resolves, top-down, the variable name of every field.
-   senv / env:  "inherit" (None) | "auto" (True) | "off" (False) | <<"N","A","M","E">> *)
-IsName(e) == e \notin {"inherit", "auto", "off"}
+   senv / env:  EnvInherit (None) | EnvAuto (True) | EnvOff (False) | EnvName(<<"N","A","M","E">>) *)
+IsName(e) == e.m = "name"
+\* the prefix a root schema starts with: Schema(env=True) -> "", Schema(env="P") -> "P", else none
+PNone == [has |-> FALSE, p |-> <<>>]           \* no string prefix (None / False)
+PStr(x) == [has |-> TRUE, p |-> x]
+RootPrefix(Sx) == IF Sx.senv.m = "auto" THEN PStr(<<>>) ELSE IF Sx.senv.m = "name" THEN PStr(Sx.senv.n) ELSE PNone
 RECURSIVE Bind(_, _)
-\* prefix: "none" when the owning schema has no string prefix, else a character sequence
+\* prefix: PNone when the owning schema has no string prefix, else PStr(character sequence)
 Bind(S, prefix) ==
     [S EXCEPT !.fields = [i \in DOMAIN S.fields |->
         LET k == S.fields[i][1]
             f == S.fields[i][2]
             up == Upper(KeyChars[k])
-            pre == IF prefix = "none" \/ prefix = <<>> THEN <<>> ELSE prefix \o <<"_">>
+            pre == IF ~prefix.has \/ prefix.p = <<>> THEN <<>> ELSE prefix.p \o <<"_">>
         IN  IF f.kind = "schema" THEN
-                LET own == IF f.ctype THEN "none"      \* a config type's schema is bound on its own
-                           ELSE CASE f.senv = "off"     -> "none"
-                             [] f.senv = "auto"    -> <<>>
-                             [] f.senv = "inherit" -> IF prefix = "none" THEN "none" ELSE pre \o up
-                             [] OTHER              -> f.senv
+                LET own == IF f.ctype THEN PNone      \* a config type's schema is bound on its own
+                           ELSE CASE f.senv.m = "off"     -> PNone
+                             [] f.senv.m = "auto"    -> PStr(<<>>)
+                             [] f.senv.m = "inherit" -> IF ~prefix.has THEN PNone ELSE PStr(pre \o up)
+                             [] OTHER                -> PStr(f.senv.n)
                 IN  <<k, Bind(f, own)>>
             ELSE IF ~IsLeaf(f) THEN <<k, f>>
             ELSE
-                LET name == CASE f.env = "off"     -> <<>>
-                              [] f.env = "auto"    -> pre \o up
-                              [] f.env = "inherit" -> IF prefix = "none" THEN <<>> ELSE pre \o up
-                              [] OTHER             -> f.env
+                LET name == CASE f.env.m = "off"     -> <<>>
+                              [] f.env.m = "auto"    -> pre \o up
+                              [] f.env.m = "inherit" -> IF ~prefix.has THEN <<>> ELSE pre \o up
+                              [] OTHER               -> f.env.n
                 IN  <<k, f @@ [envname |-> name]>>]]
 
 EnvValue(f) ==
